@@ -36,8 +36,8 @@ func note[T any](s *sched, ch chan T, key uintptr) {
 	if cap(ch) == 0 {
 		return
 	}
-	if _, ok := s.chans[key]; !ok {
-		s.chans[key] = chanDrainer[T]{ch}
+	if !s.chans.Has(uint64(key)) {
+		s.chans.Set(uint64(key), chanDrainer[T]{ch})
 	}
 }
 
@@ -55,10 +55,10 @@ type rvParty struct {
 
 //go:norace
 func (s *sched) rv(key uintptr) *rendezvous {
-	r := s.rvs[key]
+	r, _ := s.rvs.Get(uint64(key))
 	if r == nil {
 		r = &rendezvous{}
-		s.rvs[key] = r
+		s.rvs.Set(uint64(key), r)
 	}
 	return r
 }
@@ -67,7 +67,7 @@ func (s *sched) rv(key uintptr) *rendezvous {
 func removeParty(l []*rvParty, p *rvParty) []*rvParty {
 	for i, x := range l {
 		if x == p {
-			return append(l[:i], l[i+1:]...)
+			return RemoveAt(l, i)
 		}
 	}
 	return l
@@ -88,13 +88,13 @@ func ChanSend[T any](ch chan T, v T) {
 		// rendezvous
 		r := s.rv(key)
 		me := &rvParty{t: s.cur, val: v}
-		r.senders = append(r.senders, me)
-		s.yield(func() bool { return me.done || s.closed[key] || len(r.receivers) > 0 }, false, "chan send (unbuffered)")
+		r.senders = Push(r.senders, me)
+		s.yield(func() bool { return me.done || s.closed.Has(uint64(key)) || len(r.receivers) > 0 }, false, "chan send (unbuffered)")
 		r.senders = removeParty(r.senders, me)
 		if me.done {
 			return
 		}
-		if s.closed[key] {
+		if s.closed.Has(uint64(key)) {
 			panic("send on closed channel")
 		}
 		p := r.receivers[0]
@@ -103,8 +103,8 @@ func ChanSend[T any](ch chan T, v T) {
 		return
 	}
 	note(s, ch, key)
-	s.yield(func() bool { return len(ch) < cap(ch) || s.closed[key] }, false, "chan send")
-	if s.closed[key] {
+	s.yield(func() bool { return len(ch) < cap(ch) || s.closed.Has(uint64(key)) }, false, "chan send")
+	if s.closed.Has(uint64(key)) {
 		ch <- v // panics, as it should
 		return
 	}
@@ -136,8 +136,8 @@ func ChanRecv2[T any](ch chan T) (T, bool) {
 	if cap(ch) == 0 {
 		r := s.rv(key)
 		me := &rvParty{t: s.cur}
-		r.receivers = append(r.receivers, me)
-		s.yield(func() bool { return me.done || s.closed[key] || len(r.senders) > 0 }, false, "chan recv (unbuffered)")
+		r.receivers = Push(r.receivers, me)
+		s.yield(func() bool { return me.done || s.closed.Has(uint64(key)) || len(r.senders) > 0 }, false, "chan recv (unbuffered)")
 		r.receivers = removeParty(r.receivers, me)
 		if me.done {
 			return me.val.(T), me.ok
@@ -153,7 +153,7 @@ func ChanRecv2[T any](ch chan T) (T, bool) {
 		return v, ok
 	}
 	note(s, ch, key)
-	s.yield(func() bool { return len(ch) > 0 || s.closed[key] }, false, "chan recv")
+	s.yield(func() bool { return len(ch) > 0 || s.closed.Has(uint64(key)) }, false, "chan recv")
 	select {
 	case v, ok := <-ch:
 		return v, ok
@@ -173,7 +173,7 @@ func ChanRecvOnly[T any](ch <-chan T) (T, bool) {
 		return v, ok
 	}
 	key := chanKey(ch)
-	s.yield(func() bool { return len(ch) > 0 || s.closed[key] }, false, "chan recv (recv-only)")
+	s.yield(func() bool { return len(ch) > 0 || s.closed.Has(uint64(key)) }, false, "chan recv (recv-only)")
 	select {
 	case v, ok := <-ch:
 		return v, ok
@@ -192,10 +192,10 @@ func ChanClose[T any](ch chan T) {
 		return
 	}
 	if ch != nil {
-		s.closed[chanKey(ch)] = true
+		s.closed.Set(uint64(chanKey(ch)), true)
 		// keep the channel reachable for the rest of the run: the closed set
 		// is keyed by address, which must not be reused by a new channel
-		s.keep = append(s.keep, ch)
+		s.keep = Push(s.keep, interface{}(ch))
 	}
 	close(ch)
 }
@@ -213,16 +213,16 @@ func SelSend[T any](ch chan T) SelCase {
 	key := chanKey(ch)
 	return SelCase{ready: func(s *sched) bool {
 		if cap(ch) == 0 {
-			if s.closed[key] {
+			if s.closed.Has(uint64(key)) {
 				return true
 			}
-			if r := s.rvs[key]; r != nil && len(r.receivers) > 0 {
+			if r, _ := s.rvs.Get(uint64(key)); r != nil && len(r.receivers) > 0 {
 				fatal("select send on unbuffered channel with parked receiver is not modelled")
 			}
 			return false
 		}
 		note(s, ch, key)
-		return len(ch) < cap(ch) || s.closed[key]
+		return len(ch) < cap(ch) || s.closed.Has(uint64(key))
 	}}
 }
 
@@ -234,16 +234,16 @@ func SelRecv[T any](ch chan T) SelCase {
 	key := chanKey(ch)
 	return SelCase{ready: func(s *sched) bool {
 		if cap(ch) == 0 {
-			if s.closed[key] {
+			if s.closed.Has(uint64(key)) {
 				return true
 			}
-			if r := s.rvs[key]; r != nil && len(r.senders) > 0 {
+			if r, _ := s.rvs.Get(uint64(key)); r != nil && len(r.senders) > 0 {
 				fatal("select recv on unbuffered channel with parked sender is not modelled")
 			}
 			return false
 		}
 		note(s, ch, key)
-		return len(ch) > 0 || s.closed[key]
+		return len(ch) > 0 || s.closed.Has(uint64(key))
 	}}
 }
 
@@ -253,7 +253,7 @@ func SelRecvOnly[T any](ch <-chan T) SelCase {
 		return SelCase{ready: func(*sched) bool { return false }}
 	}
 	key := chanKey(ch)
-	return SelCase{ready: func(s *sched) bool { return len(ch) > 0 || s.closed[key] }}
+	return SelCase{ready: func(s *sched) bool { return len(ch) > 0 || s.closed.Has(uint64(key)) }}
 }
 
 // Select decides which clause of a select statement runs: the index of a
@@ -282,7 +282,7 @@ func Select(hasDefault bool, cases ...SelCase) int {
 	var idx []int
 	for i, c := range cases {
 		if c.ready(s) {
-			idx = append(idx, i)
+			idx = Push(idx, i)
 		}
 	}
 	if len(idx) == 0 {
@@ -294,7 +294,7 @@ func Select(hasDefault bool, cases ...SelCase) int {
 	if len(idx) == 1 {
 		return idx[0]
 	}
-	s.res.Probes["select.multiready"]++
+	s.probes.Set("select.multiready", s.probes.Get("select.multiready")+1)
 	return idx[s.tape.Choose(len(idx))]
 }
 
@@ -316,11 +316,11 @@ func ChanSendOnly[T any](ch chan<- T, v T) {
 		return
 	}
 	key := chanKey(ch)
-	if cap(ch) == 0 && !s.closed[key] {
+	if cap(ch) == 0 && !s.closed.Has(uint64(key)) {
 		fatal("send on unbuffered send-only channel is not modelled")
 	}
-	s.yield(func() bool { return len(ch) < cap(ch) || s.closed[key] }, false, "chan send (send-only)")
-	if s.closed[key] {
+	s.yield(func() bool { return len(ch) < cap(ch) || s.closed.Has(uint64(key)) }, false, "chan send (send-only)")
+	if s.closed.Has(uint64(key)) {
 		ch <- v
 		return
 	}
@@ -339,10 +339,10 @@ func ChanCloseOnly[T any](ch chan<- T) {
 		return
 	}
 	if ch != nil {
-		s.closed[chanKey(ch)] = true
+		s.closed.Set(uint64(chanKey(ch)), true)
 		// keep the channel reachable for the rest of the run: the closed set
 		// is keyed by address, which must not be reused by a new channel
-		s.keep = append(s.keep, ch)
+		s.keep = Push(s.keep, interface{}(ch))
 	}
 	close(ch)
 }
@@ -353,7 +353,7 @@ func SelSendOnly[T any](ch chan<- T) SelCase {
 		return SelCase{ready: func(*sched) bool { return false }}
 	}
 	key := chanKey(ch)
-	return SelCase{ready: func(s *sched) bool { return len(ch) < cap(ch) || s.closed[key] }}
+	return SelCase{ready: func(s *sched) bool { return len(ch) < cap(ch) || s.closed.Has(uint64(key)) }}
 }
 
 // ChanSendF is ChanSend where the real send is performed by do (used when the
@@ -371,14 +371,14 @@ func ChanSendF[T any](ch chan T, do func()) {
 	}
 	key := chanKey(ch)
 	if cap(ch) == 0 {
-		if !s.closed[key] {
+		if !s.closed.Has(uint64(key)) {
 			fatal("send with conversion on an unbuffered channel is not modelled")
 		}
 		do()
 		return
 	}
 	note(s, ch, key)
-	s.yield(func() bool { return len(ch) < cap(ch) || s.closed[key] }, false, "chan send")
+	s.yield(func() bool { return len(ch) < cap(ch) || s.closed.Has(uint64(key)) }, false, "chan send")
 	do()
 }
 
@@ -390,10 +390,10 @@ func ChanSendOnlyF[T any](ch chan<- T, do func()) {
 		return
 	}
 	key := chanKey(ch)
-	if cap(ch) == 0 && !s.closed[key] {
+	if cap(ch) == 0 && !s.closed.Has(uint64(key)) {
 		fatal("send on unbuffered send-only channel is not modelled")
 	}
-	s.yield(func() bool { return len(ch) < cap(ch) || s.closed[key] }, false, "chan send (send-only)")
+	s.yield(func() bool { return len(ch) < cap(ch) || s.closed.Has(uint64(key)) }, false, "chan send (send-only)")
 	do()
 }
 
